@@ -28,6 +28,8 @@ deriving Repr
 structure Out (α ν : Type) where
   res : Res α
   calls : List (Call ν) := []
+  /-- the key/value arguments were moved into the table (C16: only a successful insertion consumes them) -/
+  consumed : Bool := false
 
 def Table.setVal (c : Cfg κ) (t : Table κ ν) (b s : Nat) (v : ν) : Table κ ν :=
   match t.cur.get c.S b s with
@@ -82,16 +84,16 @@ def Table.uprase [DecidableEq κ] (c : Cfg κ) (locked : Bool) (t : Table κ ν)
     let inserted := ctx == .newlyInserted
     if ctxAware || ctx == .alreadyExisted then
       match t.cur.get c.S b s with
-      | none => (t, { res := .ok inserted }, some (b, s))
+      | none => (t, { res := .ok inserted, consumed := inserted }, some (b, s))
       | some sl =>
         let call : Call ν := ⟨if ctxAware then some ctx else none, sl.val⟩
         match fn ctx sl.val with
-        | .throw v' => (t.setVal c b s v', { res := .err .fnThrow, calls := [call] }, some (b, s))
+        | .throw v' => (t.setVal c b s v', { res := .err .fnThrow, calls := [call], consumed := inserted }, some (b, s))
         | .ret v' er =>
           let t := t.setVal c b s v'
           let t := if mayErase && er then t.delFrom c b s else t
-          (t, { res := .ok inserted, calls := [call] }, some (b, s))
-    else (t, { res := .ok inserted }, some (b, s))
+          (t, { res := .ok inserted, calls := [call], consumed := inserted }, some (b, s))
+    else (t, { res := .ok inserted, consumed := inserted }, some (b, s))
 
 /-- `rehash(n)` / `locked_table::rehash(n)` -/
 def Table.rehash [DecidableEq κ] (c : Cfg κ) (locked : Bool) (t : Table κ ν) (n : Nat) : Table κ ν × Res Bool :=
